@@ -282,8 +282,9 @@ Definition py_member_of (generics : list str) (f : rfield) : PM py_member :=
   let field_type := if not_optional_but_default then XOpt ty else ty in
   mdo ann <- match custom_translations with
              | Some ct =>
-               (* python.rs:462: the (possibly Optional[..]-wrapped) text goes into the set *)
-               mdo _ <- py_add_custom_type (py_show field_type);
+               (* python.rs:464: the type the translation was found for goes into the set (not the
+                  Optional[..]-wrapped text of a defaulted field) *)
+               mdo _ <- py_add_custom_type python_type;
                ret (Some (py_de_name ct, py_ser_name ct))
              | None => ret None
              end;
@@ -388,6 +389,8 @@ Definition py_decl_of (it : ritem) : PM (list py_decl) :=
   | ItStruct s => mdo d <- py_class_of s; ret [d]
   | ItAlias a =>
     mdo ty <- py_texp (agenerics a) (atype a);
+    (* python.rs:280: every generic parameter of the alias is declared as a TypeVar *)
+    mdo _ <- py_add_type_vars (agenerics a);
     ret [PYAlias (acomments a) (renamed (aid a)) (agenerics a) ty]
   | ItConst c =>
     mdo const_type <- py_texp [] (ctype c);
@@ -395,7 +398,7 @@ Definition py_decl_of (it : ritem) : PM (list py_decl) :=
   end.
 
 (* ---- rendering (layout only) ---- *)
-(* "[T, U]" (python.rs:282, 322) *)
+(* "[T, U]" (python.rs:319) *)
 Definition py_generics_list (gs : list str) : str := lit "[" ++ join (lit ", ") gs ++ lit "]".
 
 (* python.rs:456-488 *)
@@ -430,8 +433,9 @@ Definition py_render_variant (tag_key content_key : str) (v : py_variant) : str 
 Definition py_render_decl (d : py_decl) : str :=
   match d with
   | PYAlias docs name gs ty =>
-    name ++ (match gs with [] => [] | _ => py_generics_list gs end) ++
-    lit " = " ++ py_show ty ++ py_nl ++ py_nl ++
+    (* python.rs:283: a plain assignment; the generic parameters [gs] (kept in the declaration: they are
+       what write_type_alias registered as TypeVars) are not spelled after the name *)
+    name ++ lit " = " ++ py_show ty ++ py_nl ++ py_nl ++
     py_write_comments true docs 0
   | PYConst name ty value =>
     name ++ lit ": " ++ py_show ty ++ lit " = " ++ value ++ py_nl
